@@ -4,7 +4,7 @@ from .. import lib, scen, runner, declgen, inigen, units
 from . import common, parsecheck
 
 INI_KEYS = ["panic", "err", "vals", "calls", "bytes"]
-PROFILE = dict(p_bad_default=0.0, p_required=0.03, p_commands=0.45, p_group=0.45, p_namespace=0.6, p_ininame=0.3, p_noini=0.06, p_hidden=0.05,
+PROFILE = dict(p_bad_default=0.0, p_required=0.03, p_commands=0.45, p_group=0.45, p_namespace=0.6, p_ininame=0.3, p_inicross=0.12, p_noini=0.06, p_hidden=0.05,
                p_default=0.25, p_env=0.05, p_init=0.1, p_choice=0.08, p_positional=0.1, p_help=0.3)
 
 
@@ -165,6 +165,11 @@ def make_c14(rng):
             sc["ops"][0]["text"] = t[:i] + rng.choice([b"\x00", b"[", b"]", b"=", b'"', b"\r", b"\n\n", b":", b"\xff"]) + t[i:]
     elif x < 0.4:
         sc["ops"][0]["text"] = sc["ops"][0]["text"].replace(b"\n", b"\n;" + b"x" * 5000 + b"\n", 1)
+    elif x < 0.415:
+        # a line longer than 64 KiB (comment, or an entry whose name is unknown) in front of the rest
+        long_line = rng.choice([b";" + b"y" * 70000, b"#" + b" z" * 40000, b"nosuchoption = " + b"v" * 66000])
+        t = sc["ops"][0]["text"]
+        sc["ops"][0]["text"] = (long_line + b"\n" + t) if rng.random() < 0.5 else t.replace(b"\n", b"\n" + long_line + b"\n", 1)
     return sc
 
 
@@ -182,7 +187,12 @@ def noise_metamorphic_stream(rep, rng, n):
         count = 0
         for ln in lines:
             while rng.random() < 0.35:
-                out.append(rng.choice([b"", b"  ", b"; c", b"# c", b"\t"])); count += 1
+                if rng.random() < 0.04:
+                    # arbitrarily long lines: beyond bufio's 4096-byte buffer and beyond the 64 KiB Scanner token limit
+                    out.append(rng.choice([b";", b"#", b" ; "]) + b"L" * rng.choice([5000, 70000, 200000]))
+                else:
+                    out.append(rng.choice([b"", b"  ", b"; c", b"# c", b"\t"]))
+                count += 1
             ins_before.append(count)
             out.append(rng.choice([b"", b" ", b"\t"]) + ln + rng.choice([b"", b"  "]) if ln.strip() else ln)
         sc2 = copy.deepcopy({k: v for k, v in sc.items() if k != "meta"})
@@ -222,9 +232,9 @@ def noise_metamorphic_stream(rep, rng, n):
 
 
 def run_c14(rep, tier, rng, replay=None):
-    rep.cov["rule"] = ("(1) correspondence stream: declaration x INI text (structured with noise lines, CRLF, padding, 5000-byte lines, one injected fault; "
+    rep.cov["rule"] = ("(1) correspondence stream: declaration x INI text (structured with noise lines, CRLF, padding, 5000- and 70000-byte lines, one injected fault; "
                        "or arbitrary bytes) with/without IgnoreUnknown: implementation vs model on panic, error (type, line, message) and values; "
-                       "(2) metamorphic noise stream on the implementation: inserted blank/comment lines and padding must shift the reported line by "
+                       "(2) metamorphic noise stream on the implementation: inserted blank/comment lines (some 5000-200000 bytes long) and padding must shift the reported line by "
                        "exactly the inserted count and change nothing else; non-trivial = text has at least one non-noise line")
     if replay:
         common.replay(rep, "C14", replay, keys=INI_KEYS, oracle=oracle_c14); return
